@@ -282,6 +282,22 @@ def catalog():
     return C
 
 
+def _p_falsy(x):
+    return not x
+
+
+def _p_never(x):
+    return False
+
+
+def _p_is_none(x):
+    return x is None
+
+
+# MatchesPredicate(predicate, message) leaves `(pred id msgkind rows...)`
+PREDS = [_p_falsy, _p_never, _p_is_none]
+PRED_MSG = {'one': '%s is not ok', 'zero': 'not ok', 'empty': '', 'two': '%s and %s'}
+
 # which kind of matchee each catalog row is meant for (generator hint only)
 OPQ_FOR = {'str': [0, 1, 3, 4], 'bytes': [2], 'path': list(range(5, 15)), 'fn': [15, 16, 17], 'int': [18, 19]}
 
@@ -419,6 +435,11 @@ class C06(Prop):
                 log = rec.setdefault(t[1], [])
                 return Recorder(real, log, t[1] in OPQ_FOR['path'])
             return real
+        if h == 'pred':
+            real = M.MatchesPredicate(PREDS[t[1]], PRED_MSG[t[2]])
+            if rec is not None:
+                return Recorder(real, rec.setdefault(('pred', t[1]), []))
+            return real
         if h == 'not':
             return M.Not(B(t[1]))
         if h == 'all':
@@ -490,6 +511,8 @@ class C06(Prop):
             return t
         if t and t[0] == 'opq':
             return ['opq', t[1]]
+        if t and t[0] == 'pred':
+            return ['pred', t[1], t[2]]
         return [self.strip(x) for x in t]
 
     def oracle_verdict(self, k, pv):
@@ -523,7 +546,7 @@ class C06(Prop):
         """fill in the verdict tables of the opaque leaves: oracle on every value that reaches the leaf in a dry
         run (both builds) and on every sub-value of the matchee"""
         m, v = self.strip(inp[0]), inp[1]
-        if 'opq' not in repr(m):
+        if "'opq'" not in repr(m) and "'pred'" not in repr(m):
             return [m, v]
         with warnings.catch_warnings():
             warnings.simplefilter('ignore')
@@ -560,6 +583,20 @@ class C06(Prop):
                     seen.add(kk)
                     rows.append([tree, self.oracle_verdict(k, x)])
                 return ['opq', k] + rows[:40]
+            if t and t[0] == 'pred':
+                seen, rows = set(), []
+                for x in rec.get(('pred', t[1]), []) + cands:
+                    tree = unbuild(x)
+                    kk = repr(tree)
+                    if kk in seen or 'unknown' in kk:
+                        continue
+                    seen.add(kk)
+                    try:
+                        r = 'match' if PREDS[t[1]](x) else 'mismatch'
+                    except BaseException as e:
+                        r = ['raised', classify_exc(e)]
+                    rows.append([tree, r])
+                return ['pred', t[1], t[2]] + rows[:40]
             if t and t[0] == 'exctypeRe':
                 return ['exctypeRe', t[1], fill_re(t[2])]
             return [fill(x) for x in t]
@@ -589,7 +626,7 @@ class C06(Prop):
             return False
         if t and t[0] == 'dict':
             return True
-        if t and t[0] in ('opq', 'eq', 'ne', 'is', 'lt', 'gt', 'same', 'starts', 'ends', 'contains', 'containsAll'):
+        if t and t[0] in ('opq', 'pred', 'eq', 'ne', 'is', 'lt', 'gt', 'same', 'starts', 'ends', 'contains', 'containsAll'):
             return False
         return any(self.coarse(x) for x in t)
 
@@ -665,7 +702,7 @@ class C06(Prop):
         else:
             f.append('trace:' + str(trace[0]))
         s = repr(m)
-        for h in ("'setwise'", "'opq'", "'dict'", "'struct'", "'raises'", "'exctypeV'", "'listwise'", "'same'"):
+        for h in ("'setwise'", "'opq'", "'pred'", "'dict'", "'struct'", "'raises'", "'exctypeV'", "'listwise'", "'same'"):
             if h in s:
                 f.append('has:' + h.strip("'"))
         return f
@@ -683,7 +720,7 @@ class C06(Prop):
 
 
 LEAF_HEADS = {'eq', 'ne', 'is', 'lt', 'gt', 'same', 'starts', 'ends', 'contains', 'isinst', 'len', 'always', 'never', 'keys',
-              'exctype', 'excinst', 'raisesAny', 'opq', 'raisesFn', 'raisesInst', 'exctypeRe', 'containsAll'}
+              'exctype', 'excinst', 'raisesAny', 'opq', 'pred', 'raisesFn', 'raisesInst', 'exctypeRe', 'containsAll'}
 VALUE_HEADS = {'i', 's', 'b', 'l', 'd', 'o', 'ei', 'ev', 'fr', 'fx'}
 
 
@@ -905,7 +942,7 @@ class Gen:
         r = self.r
         t = self.vtype(v)
         has_ei = "'ei'" in repr(v)        # == on exc_info tuples is outside the modelled domain inside Raises
-        opts = ['always', 'never', 'isinst', 'isinst']
+        opts = ['always', 'never', 'isinst', 'isinst', 'pred']
         if has_ei and t != 'ei':
             opts += ['len'] if t in ('list', 'dict') else []
             t = 'other'
@@ -930,6 +967,8 @@ class Gen:
         k = r.choice(opts)
         if k in ('always', 'never'):
             return [k]
+        if k == 'pred':
+            return ['pred', r.randrange(len(PREDS)), r.choice(['one', 'one', 'one', 'one', 'zero', 'empty', 'two'])]
         if k == 'isinst':
             return ['isinst'] + self.typetag(v)
         if k in ('eq', 'ne', 'is'):
